@@ -15,6 +15,7 @@ class spec:
    "swe": null | "dashes" | "defaults" | {"from": param, "to": alias}
    "rec": bool,                   # custom _yatiml_recognize
    "attrs": bool,                 # _yatiml_attributes
+   "hidden": null | param,        # that parameter is stored as self._<param>
    "members": [...],              # enum only
    "validate": null | "alpha"}    # string-likes: constructor raises ValueError
 
@@ -204,7 +205,9 @@ def class_source(spec, c):
             kw.append('_yatiml_extra=OrderedDict()')
         L.append('        super().__init__({})'.format(', '.join(kw)))
     for p in c.get('params', []):
-        L.append('        self.{0} = {0}'.format(p['n']))
+        # ('hidden': the value is kept under a private name; without _yatiml_attributes such
+        # an object cannot be dumped - the dump fails with AttributeError)
+        L.append('        self.{1}{0} = {0}'.format(p['n'], '_' if c.get('hidden') == p['n'] else ''))
     if c.get('extra'):
         L.append('        self._yatiml_extra = _yatiml_extra')
     if not c.get('params') and not c.get('extra') and not c.get('base'):
@@ -279,7 +282,8 @@ def _class_tail(L, spec, c, uid, ps, req):
     if c.get('attrs'):
         L.append('    def _yatiml_attributes(self):')
         L.append('        _sim.cb("attributes", {!r})'.format(uid))
-        items = ', '.join('({0!r}, self.{0})'.format(p['n']) for p in reversed(ps))
+        items = ', '.join('({0!r}, self.{1}{0})'.format(p['n'], '_' if c.get('hidden') == p['n'] else '')
+                          for p in reversed(ps))
         L.append('        return OrderedDict([{}])'.format(items))
     L.append('')
     return L
